@@ -30,6 +30,9 @@ type Node struct {
 	Log      []string
 	Password string
 	Observe  func(node int, vb uint16, val []byte) (memd.StatusCode, []byte)
+	rev      int
+	unlisted map[[2]int]bool // {vb, replica index}: the cluster map has no node for this copy
+	cond     *sync.Cond
 	Handler  func(n *Node, c *memd.Conn, p *memd.Packet, send func(*memd.Packet)) bool
 }
 
@@ -42,13 +45,38 @@ func (n *Node) logf(f string, a ...any) {
 func (n *Node) HTTPPort() int { return n.httpL.Addr().(*net.TCPAddr).Port }
 func (n *Node) KVPort() int   { return n.kvL.Addr().(*net.TCPAddr).Port }
 
+// Unlist removes copy `replica` of vb from the cluster map (a new revision is pushed to every streaming config client).
+func (n *Node) Unlist(vb, replica int) {
+	n.mu.Lock()
+	if n.unlisted == nil {
+		n.unlisted = map[[2]int]bool{}
+	}
+	n.unlisted[[2]int{vb, replica}] = true
+	n.rev++
+	if n.cond != nil {
+		n.cond.Broadcast()
+	}
+	n.mu.Unlock()
+}
+
 func (n *Node) config() []byte {
+	n.mu.Lock()
+	rev := n.rev + 1
+	un := map[[2]int]bool{}
+	for k, v := range n.unlisted {
+		un[k] = v
+	}
+	n.mu.Unlock()
 	vbmap := make([][]int, n.NumVb)
 	nn := 1 + len(n.extraKV)
 	for i := range vbmap {
 		vbmap[i] = []int{0}
 		for r := 1; r <= n.Replicas; r++ {
-			vbmap[i] = append(vbmap[i], r%nn)
+			if un[[2]int{i, r}] {
+				vbmap[i] = append(vbmap[i], -1)
+			} else {
+				vbmap[i] = append(vbmap[i], r%nn)
+			}
 		}
 	}
 	servers := []string{fmt.Sprintf("127.0.0.1:%d", n.KVPort())}
@@ -61,7 +89,7 @@ func (n *Node) config() []byte {
 		nodesExt = append(nodesExt, map[string]any{"services": map[string]int{"kv": p}, "hostname": "127.0.0.1"})
 	}
 	cfg := map[string]any{
-		"rev": 1, "revEpoch": 1, "name": n.Bucket, "uuid": "b0b0b0b0b0b0b0b0b0b0b0b0b0b0b0b0",
+		"rev": rev, "revEpoch": 1, "name": n.Bucket, "uuid": "b0b0b0b0b0b0b0b0b0b0b0b0b0b0b0b0",
 		"nodeLocator":        "vbucket",
 		"bucketCapabilities": []string{"collections", "durableWrite", "tombstonedUserXAttrs", "couchapi", "dcp", "cbhello", "touch", "cccp", "xdcrCheckpointing", "nodesExt", "xattr"},
 		"bucketCapabilitiesVer": "",
@@ -105,10 +133,28 @@ func StartN(bucket string, numVb int, nodes int, replicas int) *Node {
 		case strings.HasPrefix(r.URL.Path, "/pools/default/bs/"):
 			w.Header().Set("Content-Type", "application/json")
 			w.WriteHeader(200)
-			w.Write(n.config())
-			w.Write([]byte("\n\n\n\n"))
-			w.(http.Flusher).Flush()
-			<-r.Context().Done()
+			// streaming endpoint: the current configuration, then every new revision
+			n.mu.Lock()
+			if n.cond == nil {
+				n.cond = sync.NewCond(&n.mu)
+			}
+			n.mu.Unlock()
+			go func() { <-r.Context().Done(); n.mu.Lock(); n.cond.Broadcast(); n.mu.Unlock() }()
+			sent := -1
+			for r.Context().Err() == nil {
+				n.mu.Lock()
+				for n.rev == sent && r.Context().Err() == nil {
+					n.cond.Wait()
+				}
+				sent = n.rev
+				n.mu.Unlock()
+				if r.Context().Err() != nil {
+					break
+				}
+				w.Write(n.config())
+				w.Write([]byte("\n\n\n\n"))
+				w.(http.Flusher).Flush()
+			}
 		case r.URL.Path == "/pools":
 			w.Write([]byte(`{"implementationVersion":"7.6.3-4200-enterprise"}`))
 		case strings.HasPrefix(r.URL.Path, "/pools/default/buckets/"):
